@@ -29,11 +29,11 @@ RULE = (
     "channel {str path, pathlib.Path, open text file, open file with newline='', StringIO, multi-line string} x storage "
     "{utf-8-sig autodetected, utf-8 autodetected, utf-8 / utf-16 / utf-16-le / utf-16-be / latin-1 / cp1252 with "
     "encoding=} x EOL {LF, CRLF, CR}: strict canonical equality with the plain-string read; part 2: all histories up to "
-    "the depth bound over {read(T1|T2) from string / path / with other options, mutate a header value / default item / "
+    "the depth bound over {read(T1|T2|comma-delimited T3|decimal-comma T4) from string / path / with other options / with option objects the caller keeps (dtypes dict, policy lists: they must come back unchanged), mutate a header value / default item / "
     "curve name / data in place / append / delete a curve of an earlier result, write(result, options), LASFile()+"
     "mutate+write, pickle, deepcopy}; after every operation the results it was not aimed at must be unchanged; after every history a fresh read(T1), read(T2), LASFile() and the module tables "
     "(ORDER_DEFINITIONS, READ/NULL policies and substitutions, DEPTH_UNITS, get_default_items()) are compared with "
-    "digests computed in a separate fresh interpreter; non-trivial = history containing a mutation or a write"
+    "digests computed in separate fresh interpreters (one per observed part, so that no part of the reference can be influenced by another); non-trivial = history containing a mutation or a write"
 )
 ASSUMPTIONS = [
     "the `encoding` attribute of the result is not part of the statement and is not compared",
